@@ -1264,8 +1264,10 @@ def _parse_header(line: str) -> tuple[str, dict[str, str]]:
     pdict = {}
     for name, decoded_value in decoded_params:
         value = email.utils.collapse_rfc2231_value(decoded_value)
-        if len(value) >= 2 and value[0] == '"' and value[-1] == '"':
-            value = value[1:-1]
+        if isinstance(decoded_value, tuple):
+            # RFC 2231 values come back still wrapped by decode_params' quote():
+            # undo the backslash escapes as well as the surrounding quotes.
+            value = email.utils.unquote(value)
         pdict[name] = value
     return key, pdict
 
